@@ -204,7 +204,14 @@ def run_refresh(case):
                 recorded.append(float(context.atoms.get_kinetic_energy()))
 
             vetoes = [True, False] if case["seed"] % 2 else [False]
-            mv = HamiltonianDisplacementMove(distribution=dist, operation=Verlet(dt=0.5, max_steps=4))
+            started = []
+
+            class StartRecordingVerlet(Verlet):
+                def integrate(self, context):
+                    started.append(float(context.atoms.get_kinetic_energy()))
+                    super().integrate(context)
+
+            mv = HamiltonianDisplacementMove(distribution=dist, operation=StartRecordingVerlet(dt=0.5, max_steps=4))
             it = iter(vetoes)
             mv.check_move = lambda *_a, **_k: not next(it, False)
             for trial in range(3):
@@ -215,6 +222,9 @@ def run_refresh(case):
                 if ctx.last_kinetic_energy != recorded[-1]:
                     post = float(atoms.get_kinetic_energy())
                     out["violation"] = {"kind": "reference-kinetic-energy", "detail": f"context.last_kinetic_energy={ctx.last_kinetic_energy!r} but the freshly drawn momenta had KE={recorded[-1]!r} (post-integration KE {post!r})"}
+                    return out
+                if started and started[-1] != recorded[-1]:
+                    out["violation"] = {"kind": "trajectory-not-from-fresh-momenta", "detail": f"the accepted-for-criteria trajectory started with KE={started[-1]!r} but the freshly drawn momenta (and the reference kinetic energy) have KE={recorded[-1]!r} (vetoes={vetoes})"}
                     return out
                 ctx.save_state()
             return out
